@@ -54,6 +54,33 @@ Proof. intros m n limit off lo f H0 H1 H2 H3 H4. destruct (src_img_bounded_loop_
         (src_img_bounded_data_eq m off (f_len f) H3 H4))))). Qed.
 Print Assumptions C05_src_bounded_loop.
 
+(* controlled_poll: the loop test, the step, the step taken back on Abort, the position committed / published *)
+Theorem C05_src_controlled_poll : forall m tl pos n limit off cap sp ipos ioff,
+  in_i32 off = true -> in_i32 (off + sp) = true -> in_i32 (off + sp - ioff) = true -> in_i64 (ipos + (off + sp - ioff)) = true ->
+  src_img_controlled_initial_offset m (tl - 1) pos = Ok (term_offset_of_pos tl pos) /\
+  src_img_controlled_continue m n limit off cap = Ok ((n <? limit) && (off <? cap)) /\
+  src_img_controlled_advance m off sp = Ok (off + sp) /\
+  src_img_controlled_abort m (off + sp) sp = Ok (off + sp - sp) /\
+  src_img_controlled_commit m ipos (off + sp) ioff = Ok (ipos + (off + sp - ioff)) /\
+  src_img_controlled_resulting_position m ipos (off + sp) ioff = Ok (ipos + (off + sp - ioff)).
+Proof. intros m tl pos n limit off cap sp ipos ioff H0 H1 H2 H3.
+  destruct (src_img_controlled_loop_eq m n limit off cap sp H0 H1) as (A & B & C).
+  destruct (src_img_controlled_positions_eq m ipos (off + sp) ioff H2 H3) as (D & E).
+  exact (conj (src_img_controlled_initial_offset_eq m tl pos) (conj A (conj B (conj C (conj D E))))). Qed.
+Print Assumptions C05_src_controlled_poll.
+
+(* block_poll: the scan limit, the block length, whether a block is delivered and the position published *)
+Theorem C05_src_block_poll : forall m tl pos off blimit ro,
+  in_i32 (ro - off) = true -> in_i64 (pos + (ro - off)) = true ->
+  src_img_block_term_offset m (tl - 1) pos = Ok (term_offset_of_pos tl pos) /\
+  src_img_block_limit_offset m tl off blimit = (s <- add32 m off blimit ;; Ok (Z.min s tl)) /\
+  src_img_block_length m ro off = Ok (ro - off) /\
+  src_img_block_nonempty m ro off = Ok (ro >? off) /\
+  src_img_block_new_position m pos (ro - off) = Ok (pos + (ro - off)).
+Proof. intros m tl pos off blimit ro H1 H2. destruct (src_img_block_result_eq m pos ro off H1 H2) as (A & B & C).
+  exact (conj (src_img_block_term_offset_eq m tl pos) (conj (src_img_block_limit_offset_eq m tl off blimit) (conj A (conj B C)))). Qed.
+Print Assumptions C05_src_block_poll.
+
 (* term_reader::read (plain poll): Reader.read_loop's tests and steps *)
 Theorem C05_src_term_read : forall m n limit off cap f,
   0 <= f_len f -> in_i32 (f_len f + 31) = true -> in_i32 (off + span f) = true ->
